@@ -1,9 +1,15 @@
 #!/bin/sh
-# usage: tools/seed_run.sh <seed-id> <tier> <Cxx> [--job name]   -- applies the seeded patch to /repo, runs the check, reverts.
+# usage: tools/seed_run.sh <seed-id> <tier> <Cxx> [--job name]
+# Runs a check against the seeded change.  By default the patch is applied to a scratch worktree of /repo (so other
+# checks running on /repo are not disturbed); with SEED_INPLACE=1 it is applied to /repo itself and reverted afterwards.
 ID=$1; T=$2; shift 2
-P=/verif/seeded/$ID/patch.diff; [ -f /verif/seeded/$ID/patch_rebased.diff ] && P=/verif/seeded/$ID/patch_rebased.diff; cd /repo && git apply $P || { echo "patch does not apply"; exit 3; }
+P=/verif/seeded/$ID/patch.diff; [ -f /verif/seeded/$ID/patch_rebased.diff ] && P=/verif/seeded/$ID/patch_rebased.diff
+if [ -n "$SEED_INPLACE" ]; then R=/repo; else
+  R=/tmp/seedrun_$ID; git -C /repo worktree remove --force $R 2>/dev/null; git -C /repo worktree add -q --detach $R HEAD || exit 3
+fi
+git -C $R apply $P || { echo "patch does not apply"; [ -z "$SEED_INPLACE" ] && git -C /repo worktree remove --force $R; exit 3; }
 cd /verif
-VERIF_EVIDENCE_DIR=/tmp/seed_ev_$ID ./check "$@" --tier $T 2>&1 | grep -v "^  job" | tail -6 | cut -c1-400
-git -C /repo checkout -- . 
+VERIF_REPO=$R VERIF_EVIDENCE_DIR=/tmp/seed_ev_$ID ./check "$@" --tier $T 2>&1 | grep -v "^  job" | tail -6 | cut -c1-400
+if [ -n "$SEED_INPLACE" ]; then git -C /repo checkout -- . ; else git -C /repo worktree remove --force $R; fi
 rm -rf /tmp/seed_ev_$ID
 git -C /repo status --short | head -3
